@@ -327,7 +327,7 @@ def monitor(sc, views):
                 if told != truth:
                     if race:
                         law = "converges-unload-race"
-                    elif u in had_bkg or (tk[0] == "p" and o in had_bkg):
+                    elif had_bkg:   # any background session so far (e.g. a group whose only attached session is background)
                         law = "converges-background-session"
                     elif tk[0] == "p" and en is False:
                         law = "converges-p2p-contact-left-disabled"
